@@ -177,7 +177,7 @@ func (E *Engine) doAlloc(st *State, x *ssa.Alloc) {
 	ref := E.newObject(st, "new:"+x.Comment)
 	lv := &LVal{Kind: lvHeap, Ref: ref, Root: et}
 	// a named local whose address escapes (captured by a closure): its own cell family
-	if _, isStruct := types.Unalias(et).Underlying().(*types.Struct); !isStruct && x.Comment != "" && !strings.Contains(x.Comment, "complit") && !strings.Contains(x.Comment, "varargs") && !strings.Contains(x.Comment, "makeslice") && !strings.HasPrefix(x.Comment, "new") {
+	if strings.HasPrefix(E.rootName(et), "box<") && x.Comment != "" && !strings.Contains(x.Comment, "complit") && !strings.Contains(x.Comment, "varargs") && !strings.Contains(x.Comment, "makeslice") && !strings.HasPrefix(x.Comment, "new") {
 		lv.VarCell = true
 	}
 	E.store(st, lv, E.zeroVal(et))
